@@ -6,6 +6,19 @@ use crate::refenc::{Frame, Role};
 use crate::refm::*;
 use crate::rng::Rng;
 
+static SHARD: std::sync::atomic::AtomicUsize = std::sync::atomic::AtomicUsize::new(0);
+static SHARDS: std::sync::atomic::AtomicUsize = std::sync::atomic::AtomicUsize::new(1);
+
+pub fn set_shard(i: usize, total: usize) {
+    SHARD.store(i, std::sync::atomic::Ordering::SeqCst);
+    SHARDS.store(total.max(1), std::sync::atomic::Ordering::SeqCst);
+}
+
+/// (index, total) of this process among the shard processes of a layer; (0, 1) when unsharded.
+pub fn shard() -> (usize, usize) {
+    (SHARD.load(std::sync::atomic::Ordering::SeqCst), SHARDS.load(std::sync::atomic::Ordering::SeqCst))
+}
+
 pub fn nworkers() -> usize {
     if cfg!(miri) {
         return 1;
@@ -22,9 +35,11 @@ where
 {
     let n = nworkers();
     if n == 1 {
-        let mut r = Rng::for_worker(ctx.seed, ctx.prop, 0);
+        // one worker per process: the process is shard `i` of `total` (Miri / valgrind layers)
+        let (i, total) = shard();
+        let mut r = Rng::for_worker(ctx.seed, ctx.prop, i as u64);
         let mut c = ctx.child();
-        f(0, 1, &mut c, &mut r);
+        f(i, total, &mut c, &mut r);
         ctx.merge(c);
         return;
     }
